@@ -8,6 +8,9 @@ Require Import IW.CC.Lts IW.CC.Lts_proofs IW.CC.Cover.
 Require IW.CC.Stw IW.CC.Tp.
 Import ListNotations.
 
+(* the kernel must unfold these names (not run the witness traces) when it compares them with their definitions *)
+Local Strategy expand [stw_edges stw_edges_fixed tp_edges tp_edges_fixed].
+
 (* The case-analysis tactics are those of Stw_proofs.v / Tp_proofs.v, repeated here so that this file depends on the
    models only; StwCover.R / TpCover.R are the same definitions as Stw_proofs.R / Tp_proofs.R (convertible). *)
 Ltac dcase H :=
@@ -210,10 +213,10 @@ Theorem stw_dead_edges_syntactic : forall e, In e stw_dead_edges ->
   exists c s t ev s', step c s t ev = Some s' /\ stw_edge c s t ev s' = e.
 Proof.
   intros e [<-|[<-|[<-|[<-|[]]]]].
-  - exists (mkcfg 1 false false true), (dead_state Woken [1] 1 false), 10, EUnlock. eexists. split; vm_compute; reflexivity.
-  - exists (mkcfg 1 false false true), (dead_state Woken [1] 1 true), 10, EUnlock. eexists. split; vm_compute; reflexivity.
-  - exists (mkcfg 0 false false true), (dead_state ODisc [1] 1 false), 10, (EEnq 7). eexists. split; vm_compute; reflexivity.
-  - exists (mkcfg 0 false false true), (dead_state DDisc [1] 1 false), 10, (EBcast 0). eexists. split; vm_compute; reflexivity.
+  - exists (mkcfg 1 false false true true), (dead_state Woken [1] 1 false), 10, EUnlock. eexists. split; vm_compute; reflexivity.
+  - exists (mkcfg 1 false false true true), (dead_state Woken [1] 1 true), 10, EUnlock. eexists. split; vm_compute; reflexivity.
+  - exists (mkcfg 0 false false true true), (dead_state ODisc [1] 1 false), 10, (EEnq 7). eexists. split; vm_compute; reflexivity.
+  - exists (mkcfg 0 false false true true), (dead_state DDisc [1] 1 false), 10, (EBcast 0). eexists. split; vm_compute; reflexivity.
 Qed.
 
 (* (b) *)
@@ -281,7 +284,7 @@ Proof.
 Qed.
 
 (* (d) *)
-Lemma stw_edge_count : length (edge_nodup stw_edges) = 63 /\ length stw_dead_edges = 4 /\ length stw_witness = 26.
+Lemma stw_edge_count : length (edge_nodup stw_edges) = 71 /\ length stw_dead_edges = 4 /\ length stw_witness = 32.
 Proof. vm_compute. repeat split; reflexivity. Qed.
 End StwCover.
 
@@ -422,7 +425,7 @@ Proof.
   destruct (tp_fixed_covers _ Hin) as [Hf|Hf]; [|contradiction]. apply tp_fixed_sound. exact Hf.
 Qed.
 
-Lemma tp_edge_count : length (edge_nodup tp_edges) = 47 /\ length tp_witness = 15.
+Lemma tp_edge_count : length (edge_nodup tp_edges) = 47 /\ length tp_witness = 16.
 Proof. vm_compute. repeat split; reflexivity. Qed.
 End TpCover.
 
